@@ -24,13 +24,14 @@ pub(crate) struct QueryRoot<T> {
 #[cfg_attr(feature = "boxed-trait", async_trait::async_trait)]
 impl<T: ObjectType> ContainerType for QueryRoot<T> {
     async fn resolve_field(&self, ctx: &Context<'_>) -> ServerResult<Option<Value>> {
-        if matches!(
+        let introspection_enabled = matches!(
             ctx.schema_env.registry.introspection_mode,
             IntrospectionMode::Enabled | IntrospectionMode::IntrospectionOnly
         ) && matches!(
             ctx.query_env.introspection_mode,
             IntrospectionMode::Enabled | IntrospectionMode::IntrospectionOnly,
-        ) {
+        );
+        if introspection_enabled {
             if ctx.item.node.name.node == "__schema" {
                 let mut ctx_obj = ctx.with_selection_set(&ctx.item.node.selection_set);
                 ctx_obj.is_for_introspection = true;
@@ -85,11 +86,12 @@ impl<T: ObjectType> ContainerType for QueryRoot<T> {
                 ctx_obj.is_for_introspection = true;
                 return OutputType::resolve(
                     &Service {
-                        sdl: Some(
+                        // the service description is schema metadata: not without introspection
+                        sdl: introspection_enabled.then(|| {
                             ctx.schema_env.registry.export_sdl(
                                 SDLExportOptions::new().federation().compose_directive(),
-                            ),
-                        ),
+                            )
+                        }),
                     },
                     &ctx_obj,
                     ctx.item,
